@@ -696,7 +696,23 @@ fn family_large_integers(_tier: Tier) -> Acc {
             }
         }
     }
-    acc.rep.bound = format!("every `a op b` with op in {{+,-,*}} over {} integer operands (fields and literals from 1 to 2^32, incl. i32::MAX and i32::MIN) whose exact result is within +-2^53: ==, !=, >=, < against the exact integer, and assignment followed by a rule that reads the stored value", operands.len());
+    // integer / integer: exact quotients, and a small dividend over a huge divisor (a positive quotient below machine
+    // epsilon is still positive)
+    for (ta, va, tb, vb) in [("F.one", 1i64, "F.huge", 5_000_000_000_000_000i64), ("3", 3, "F.huge", 5_000_000_000_000_000), ("F.t", 3_000_000_000, "F.p", 60_000), ("F.w", 4_294_967_296, "2", 2), ("F.one", 1, "F.m", 2_147_483_647)] {
+        let mut st = store.clone();
+        st.vals.insert("F.huge".to_string(), V::Int(5_000_000_000_000_000));
+        let q = va as f64 / vb as f64;
+        let expr = format!("{} / {}", ta, tb);
+        for (cmp, rhs, exp) in [(">", "0".to_string(), q > 0.0), ("==", "0".to_string(), q == 0.0), ("<=", "0".to_string(), q <= 0.0), (">=", "1".to_string(), q >= 1.0)] {
+            let cond = format!("{} {} {}", expr, cmp, rhs);
+            check_fired(&mut acc, "large_integers", &cond, &rule_text(&cond), "large", &st, Some(exp), &["integer_division"]);
+        }
+        if va % vb == 0 {
+            let cond = format!("{} == {}", expr, va / vb);
+            check_fired(&mut acc, "large_integers", &cond, &rule_text(&cond), "large", &st, Some(true), &["integer_division"]);
+        }
+    }
+    acc.rep.bound = format!("every `a op b` with op in {{+,-,*}} over {} integer operands (fields and literals from 1 to 2^32, incl. i32::MAX and i32::MIN) whose exact result is within +-2^53: ==, !=, >=, < against the exact integer, and assignment followed by a rule that reads the stored value; integer quotients (exact, and 1 / 5e15 > 0)", operands.len());
     acc
 }
 
